@@ -53,12 +53,19 @@ def rejections(eng, fn):
                     k = ft.const_of(other)
                     if k is None:
                         continue
+                    sd = side
+                    while isinstance(sd, dict) and sd.get("k") in ("icast", "cast", "copy") and "v" not in sd:
+                        sd = sd.get("e")
+                    if isinstance(sd, dict) and sd.get("k") == "bin" and sd.get("op") in ("&", "|", "^", "%", ">>", "<<"):
+                        continue      # flag / alignment tests are not range bounds of the field
                     labs = [x for x in ft.labels(side, cb.id) if is_src(x)]
                     for lab in labs:
                         info = ft.label_info.get(lab) or eng.label_info.get(lab) or {}
                         src_fn = strip_targs(info.get("fn") or fn.base)
                         scope = src_fn.rsplit("::", 1)[0] if src_fn.count("::") >= 2 else src_fn
-                        rd = "%s/%s" % ((info.get("callee") or "?").replace("draco::", ""), info.get("iw", "?"))
+                        cal = (info.get("callee") or "?").replace("draco::", "")
+                        prim = cal.startswith(("DecoderBuffer::", "DecodeVarint", "DecodeSymbols")) or "BitDecoder" in cal
+                        rd = "%s/%s" % (cal, info.get("iw", "?")) if prim else "record/%s" % info.get("iw", "?")
                         key = "%s | %s | %s %d" % (scope.replace("draco::", ""), rd, o, int(k))
                         out.append((key, fn.site(cb.tloc or ""), cb.condsrc, info.get("var") or "value"))
     return out
